@@ -442,10 +442,19 @@ static void c08_case(uint64_t idx)
 		if (ret != LZMA_OK) { hx_violation("C08", "reinit-failed|mt_enc", idx, "re-initialising returned %s", lzma_ret_name(ret)); failed = true; }
 		else {
 			// encode everything again with the re-initialised handle
-			vbuf_clear(&e.out); e.fed = 0; e.end_after = -1; e.ended_early = false; e.calls = 0;
+			vbuf_clear(&e.out); e.fed = 0; e.end_after = -1; e.ended_early = false; e.calls = 0; e.progress_bad = false; e.total_given = 0;
 			ret = enc_feed(&e, in.p, total, LZMA_FINISH);
 			hx_eval();
 			if (!e.ended_early && ret != LZMA_STREAM_END) { hx_violation("C08", "finish-failed-after-reinit|mt_enc", idx, "returned %s; threads %u->%u bs %" PRIu64 "->%" PRIu64, lzma_ret_name(ret), threads, mt2.threads, bs, (uint64_t)mt2.block_size); failed = true; }
+			if (!failed && !e.ended_early) {
+				// the second life's progress figures start from zero and end at its own totals
+				uint64_t pin = 0, pout = 0; lzma_get_progress(&e.s, &pin, &pout);
+				if (e.progress_bad) { hx_violation("C08", "progress-exceeds-input|after-reinit", idx, "%s; threads %u->%u", e.pwhy, threads, mt2.threads); failed = true; }
+				else if (pin != e.s.total_in || pout != e.s.total_out) {
+					hx_violation("C08", "final-progress-differs|after-reinit", idx, "after re-initialising and encoding again: final progress (%" PRIu64 ", %" PRIu64 ") but totals (%" PRIu64 ", %" PRIu64 "); threads %u->%u bs %" PRIu64 "->%" PRIu64, pin, pout, e.s.total_in, e.s.total_out, threads, mt2.threads, bs, (uint64_t)mt2.block_size);
+					failed = true;
+				}
+			}
 			nbound = 0; bs = mt2.block_size;
 		}
 	} else if (e.ended_early) hx_count("early_end_cases", 1);
